@@ -23,20 +23,20 @@ type Opts struct {
 
 // Op is one public call into the library (programs of C05, C10, C16, C17, C18).
 type Op struct {
-	Entry  string `json:"entry"`            // ExpandSpec | ExpandSchema | ExpandSchemaWithBasePath | ExpandParameter | …
-	World  int    `json:"world,omitempty"`  // index into Scenario.Worlds (0 = Scenario.World)
-	Ptr    string `json:"ptr,omitempty"`    // element of the root document the call is about
-	Ref    string `json:"ref,omitempty"`    // reference string for Resolve* calls
-	Root   string `json:"root,omitempty"`   // typed | generic | nil
-	Cache  string `json:"cache,omitempty"`  // nil | fresh | lib | prefilled | reuse | shared
-	Opts   Opts   `json:"opts,omitempty"`
-	Base   string `json:"base,omitempty"`   // spelling of the base location (C11)
-	Mutate *Mut   `json:"mutate,omitempty"` // not a call: change a document of the world (C16)
-	GlobalLoader bool `json:"global_loader,omitempty"` // leave ExpandOptions.PathLoader nil: the package-level loader serves the call
-	LoaderTag string `json:"loader_tag,omitempty"`
-	Install   bool   `json:"install,omitempty"` // C16: (re)assign spec.PathLoader before this call (a fresh process always does) // C16: install a new package-level loader function before this call
-	Faults []sim.Fault `json:"faults,omitempty"` // faults active during this call only (C16)
-	Pre    []string `json:"pre,omitempty"`  // URLs pre-loaded into the cache (C18)
+	Entry        string      `json:"entry"`           // ExpandSpec | ExpandSchema | ExpandSchemaWithBasePath | ExpandParameter | …
+	World        int         `json:"world,omitempty"` // index into Scenario.Worlds (0 = Scenario.World)
+	Ptr          string      `json:"ptr,omitempty"`   // element of the root document the call is about
+	Ref          string      `json:"ref,omitempty"`   // reference string for Resolve* calls
+	Root         string      `json:"root,omitempty"`  // typed | generic | nil
+	Cache        string      `json:"cache,omitempty"` // nil | fresh | lib | prefilled | reuse | shared
+	Opts         Opts        `json:"opts,omitempty"`
+	Base         string      `json:"base,omitempty"`          // spelling of the base location (C11)
+	Mutate       *Mut        `json:"mutate,omitempty"`        // not a call: change a document of the world (C16)
+	GlobalLoader bool        `json:"global_loader,omitempty"` // leave ExpandOptions.PathLoader nil: the package-level loader serves the call
+	LoaderTag    string      `json:"loader_tag,omitempty"`
+	Install      bool        `json:"install,omitempty"` // C16: (re)assign spec.PathLoader before this call (a fresh process always does) // C16: install a new package-level loader function before this call
+	Faults       []sim.Fault `json:"faults,omitempty"`  // faults active during this call only (C16)
+	Pre          []string    `json:"pre,omitempty"`     // URLs pre-loaded into the cache (C18)
 }
 
 // Mut replaces the document at URL.
@@ -62,10 +62,10 @@ type Scenario struct {
 	Tasks     [][]Op         `json:"tasks,omitempty"`
 	Sched     *sim.SchedCfg  `json:"sched,omitempty"`
 	Mix       string         `json:"mix,omitempty"`
-	Pairs     [][2]string    `json:"pairs,omitempty"` // C12 (base, ref) pairs
+	Pairs     [][2]string    `json:"pairs,omitempty"`  // C12 (base, ref) pairs
 	Values    []interface{}  `json:"values,omitempty"` // C06 model values as JSON
 	Kinds     []string       `json:"kinds,omitempty"`
-	Spellings []string       `json:"spellings,omitempty"` // C11
+	Spellings []string       `json:"spellings,omitempty"`   // C11
 	Plans     [][]sim.Fault  `json:"fault_plans,omitempty"` // C08: every plan is run
 	// Prelude: scenarios run (verdicts ignored) in the same process before this one. Only present in
 	// replay files of violations that need state left behind by earlier calls to manifest.
@@ -97,7 +97,7 @@ type Verdict struct {
 	Faults    map[string]int // fault kind -> firings
 	OrderSig  uint64         // hash of the map orders used
 	SchedSig  uint64
-	Evals     int // oracle evaluations in this run
+	Evals     int                // oracle evaluations in this run
 	Max       map[string]float64 // named maxima (aggregated with max)
 }
 
